@@ -25,6 +25,9 @@ Proof.
   destruct Ha as [->|Ha]; [apply H2; apply in_or_app; now right|eapply IH; eauto].
 Qed.
 
+Lemma In_firstn_l {A} k (l : list A) x : In x (firstn k l) -> In x l.
+Proof. revert k; induction l as [|a l IH]; intros [|k]; simpl; auto; try tauto. intros [H|H]; eauto. Qed.
+
 Lemma filter_perm_length {A} (P : A -> bool) l l' : Permutation l l' -> length (filter P l) = length (filter P l').
 Proof. induction 1; simpl; auto; repeat destruct (P _); simpl; auto; lia. Qed.
 
@@ -442,5 +445,243 @@ Proof.
   destruct (Nat.leb_spec (N - s) j) as [Hw|Hw].
   - destruct (Nat.leb_spec j N); [|lia]. simpl. apply mem_In. apply H2. lia.
   - simpl. apply negb_true_iff, mem_false. apply H1. lia.
+Qed.
+
+(* ---------------- C06: every pick is the best of its own class ---------------- *)
+Lemma dv_free_as_gqr rk cs : dv_free key rk cs = dv_gqr key (fun _ _ => true) rk cs.
+Proof. reflexivity. Qed.
+
+Lemma free_dominates rk cs : cs <> [] -> forall c, In c cs -> (key rk c <= key rk (picked (dv_free key) (rk, cs)))%Z.
+Proof.
+  intros Hne c Hc.
+  destruct (pick_permitted key key_pos (fun _ _ => true) rk cs) as (_ & _ & D).
+  - destruct cs as [|c0 r]; [congruence|]. exists c0. split; [now left|reflexivity].
+  - unfold picked in *. rewrite dv_free_as_gqr. apply D; auto.
+Qed.
+
+Lemma ranked_not_remaining o j c : j <= n -> In c (fst (Rg o j)) -> In c (snd (Rg o j)) -> False.
+Proof.
+  intros Hj H1 H2. destruct (gqr_invariant o j Hj) as (_ & P & _).
+  assert (ND : NoDup (fst (Rg o j) ++ snd (Rg o j))) by (eapply Permutation_NoDup; [apply Permutation_sym, P|apply seq_NoDup]).
+  exact (NoDup_app_disj _ _ ND c H1 H2).
+Qed.
+
+Theorem max_n_within_class i : i < N ->
+  let st := Rg OMax i in let p := picked (dv_gqr key (permit_of OMax g)) st in
+  forall c, In c (snd st) -> (In c L <-> In p L) -> (key (fst st) c <= key (fst st) p)%Z.
+Proof.
+  intros Hi st p c Hc Hcls. pose proof A_len as AL.
+  destruct (Nat.le_gt_cases (count_in L (firstn N A)) s) as [Hin|Hact].
+  - (* inactive: nothing is zeroed, the pick is the overall best *)
+    destruct (segment_permitted key key_pos (permit_of OMax g) n (fun _ => true) 0 N) as (picks & _ & _ & _ & D).
+    + intros j x _. simpl. unfold permit_max_n. rewrite HN.
+      destruct (Nat.ltb_spec s (count_in L (firstn N A))); [lia|reflexivity].
+    + lia.
+    + simpl. rewrite filter_length_all by auto. rewrite seq_length. lia.
+    + destruct (D i Hi) as [E X]. rewrite Nat.add_0_l in E, X. subst st p. rewrite <- E. apply X; auto.
+  - destruct (max_n_active_picks Hact) as (picks & Ep & Lp & Fp & D).
+    destruct (D i Hi) as [E X]. fold st in E, X. fold p in E.
+    destruct (P_max c) eqn:Pc; [rewrite <- E; apply X; auto|].
+    (* c is a forbidden region sensor, so the pick is a region sensor too: this only happens while the run still
+       coincides with the unconstrained one *)
+    assert (HcL : In c L).
+    { unfold P_max in Pc. apply negb_false_iff, mem_In in Pc. apply const_idx_In.
+      rewrite <- (firstn_skipn s (const_idx g)). apply in_or_app. now right. }
+    assert (HpL : In p L) by tauto.
+    assert (Hpp : P_max p = true). { apply Fp. rewrite <- E. apply nth_In. lia. }
+    assert (Hp_first : In p (firstn s (const_idx g))).
+    { unfold P_max in Hpp. apply negb_true_iff, mem_false in Hpp. apply const_idx_In in HpL.
+      rewrite <- (firstn_skipn s (const_idx g)) in HpL. apply in_app_or in HpL. tauto. }
+    destruct (count_hits L A N s ltac:(lia)) as (t & Ht & Et).
+    assert (Ect : fst (Rg OMax t) = firstn t A).
+    { apply gqr_coincides; [lia|]. apply max_n_lets_prefix_through; lia. }
+    assert (Hit : i < t).
+    { destruct (Nat.lt_ge_cases i t) as [|Hge]; auto. exfalso.
+      assert (In p (fst (Rg OMax t))).
+      { rewrite Ect. assert (Y : In p (filter (fun x => mem x L) (firstn t A))).
+        { rewrite prefix_region, Et. exact Hp_first. }
+        apply filter_In in Y. tauto. }
+      assert (In p (fst (Rg OMax i))).
+      { rewrite <- (gqr_prefix OMax t i) in H by lia. eapply In_firstn_l; eauto. }
+      assert (In p (snd (Rg OMax i))).
+      { destruct (gqr_invariant OMax i ltac:(lia)) as (_ & _ & R).
+        destruct (step_shape _ (dv_gqr_len key (permit_of OMax g)) (fst (Rg OMax i)) (snd (Rg OMax i))) as (_ & _ & _ & X').
+        - destruct (snd (Rg OMax i)); simpl in R; [lia|discriminate].
+        - subst p st. destruct (Rg OMax i). exact X'. }
+      eapply (ranked_not_remaining OMax i p); eauto. lia. }
+    (* before t the constrained state and pick are the unconstrained ones *)
+    assert (Est : st = Rf i).
+    { subst st. apply (run_coincides key key_pos (permit_of OMax g) n i); [lia|].
+      intros j Hj. apply (max_n_lets_prefix_through t); lia. }
+    assert (Epk : p = picked (dv_free key) (Rf i)).
+    { subst p. rewrite Est. destruct (Rf i) as [rk cs] eqn:Er.
+      destruct (run_invariant _ (dv_free_len key) n i ltac:(lia)) as (Lr & _ & R). rewrite Er in Lr, R. simpl in Lr, R.
+      assert (Hne : cs <> []) by (destruct cs; simpl in R; [lia|discriminate]).
+      unfold picked. rewrite (pick_coincides key key_pos (permit_of OMax g) rk cs Hne); auto.
+      rewrite Lr. pose proof (max_n_lets_prefix_through t ltac:(lia) ltac:(lia) i Hit) as Y. rewrite Er in Y. exact Y. }
+    rewrite Epk. rewrite Est in *. destruct (Rf i) as [rk cs] eqn:Er. simpl in *.
+    apply free_dominates; auto. intro Z. subst cs. contradiction.
+Qed.
+
+Lemma exact_defers_to_max : s <= count_in L (firstn N A) -> forall i, i <= N -> Rg OExact i = Rg OMax i.
+Proof.
+  intros Hge i Hi. apply run_ext. intros j _. cbv zeta. unfold dv_gqr. apply map_ext. intro c. simpl.
+  unfold permit_exact_n. rewrite HN. destruct (Nat.ltb_spec (count_in L (firstn N A)) s); [lia|reflexivity].
+Qed.
+
+Theorem exact_n_within_class i : i < N ->
+  let st := Rg OExact i in let p := picked (dv_gqr key (permit_of OExact g)) st in
+  forall c, In c (snd st) -> (In c L <-> In p L) -> (key (fst st) c <= key (fst st) p)%Z.
+Proof.
+  intros Hi. pose proof A_len as AL.
+  destruct (Nat.le_gt_cases s (count_in L (firstn N A))) as [Hge|Hlt].
+  - (* defers to max_n: same states, same value lists *)
+    rewrite (exact_defers_to_max Hge i ltac:(lia)). cbv zeta.
+    assert (Ep : picked (dv_gqr key (permit_of OExact g)) (Rg OMax i) = picked (dv_gqr key (permit_of OMax g)) (Rg OMax i)).
+    { destruct (Rg OMax i) as [rk cs]. unfold picked. f_equal. f_equal. unfold dv_gqr. apply map_ext. intro c. simpl.
+      unfold permit_exact_n. rewrite HN. destruct (Nat.ltb_spec (count_in L (firstn N A)) s); [lia|reflexivity]. }
+    rewrite Ep. apply max_n_within_class. exact Hi.
+  - set (cc := fun j => count_in L (firstn j A)).
+    set (W := fun j => N <=? j + (s - cc j)).
+    destruct (least_witness W N) as (js & Hjs & Wjs & Wlt).
+    { unfold W. apply Nat.leb_le. lia. }
+    unfold W in Wjs. apply Nat.leb_le in Wjs.
+    assert (cmono : forall j, j <= N -> cc j <= cc N) by (intros; apply count_in_firstn_mono; auto).
+    assert (Hexact : js + (s - cc js) = N).
+    { destruct js as [|j']; [assert (c0 : cc 0 = 0) by reflexivity; lia|].
+      specialize (Wlt j' ltac:(lia)). unfold W in Wlt. apply Nat.leb_gt in Wlt.
+      pose proof (count_in_firstn_S L A j') as [X1 X2]. fold (cc (S j')) in X1, X2. fold (cc j') in X1, X2.
+      specialize (cmono (S j') Hjs). unfold cc in *. lia. }
+    assert (Hfree : forall j x, j < js -> permit_of OExact g j x = true).
+    { intros j x Hj. simpl. unfold permit_exact_n. rewrite HN.
+      destruct (Nat.ltb_spec (count_in L (firstn N A)) s); [|lia].
+      specialize (Wlt j Hj). unfold W, cc in Wlt. apply Nat.leb_gt in Wlt.
+      destruct (Nat.ltb_spec j N); simpl; auto. destruct (Nat.leb_spec (N - (s - count_in L (firstn j A))) j); auto. lia. }
+    assert (Hforced : forall j x, js <= j < N -> permit_of OExact g j x = mem x L).
+    { intros j x Hj. simpl. unfold permit_exact_n. rewrite HN.
+      destruct (Nat.ltb_spec (count_in L (firstn N A)) s); [|lia].
+      destruct (Nat.ltb_spec j N); [|lia]. simpl.
+      assert (cc j <= cc js + (j - js)) by (apply count_in_firstn_lip; lia).
+      assert (cc j <= cc N) by (apply cmono; lia). unfold cc in *.
+      destruct (Nat.leb_spec (N - (s - count_in L (firstn j A))) j); auto. lia. }
+    cbv zeta. intros c Hc Hcls.
+    destruct (Nat.lt_ge_cases i js) as [Hph|Hph].
+    + (* before the forcing window nothing is zeroed: the pick is the overall best *)
+      destruct (segment_permitted key key_pos (permit_of OExact g) n (fun _ => true) 0 js) as (picks & _ & _ & _ & D).
+      * intros j x Hj. apply Hfree. lia.
+      * lia.
+      * change (snd (Rg OExact 0)) with (seq 0 n). rewrite filter_length_all by auto. rewrite seq_length. lia.
+      * destruct (D i Hph) as [E X]. rewrite Nat.add_0_l in E, X. rewrite <- E. apply X; auto.
+    + (* inside the window only region sensors are candidates, and the pick is the best of them *)
+      destruct (segment_permitted key key_pos (permit_of OExact g) n (fun x => mem x L) js (N - js)) as (picks & E0 & Lp & Fp & D).
+      * intros j x Hj. apply Hforced. lia.
+      * lia.
+      * assert (E1 : fst (Rg OExact js) = firstn js A).
+        { apply gqr_coincides; [lia|]. intros j Hj. apply Hfree. exact Hj. }
+        destruct (gqr_invariant OExact js ltac:(lia)) as (_ & Pm & _).
+        pose proof (perm_remaining_count (fun x => mem x L) _ _ _ Pm) as Cnt.
+        rewrite (count_members n L HLnd HLr), E1 in Cnt. fold (count_in L (firstn js A)) in Cnt. fold (cc js) in Cnt.
+        specialize (cmono js Hjs). unfold cc in *. lia.
+      * destruct (D (i - js) ltac:(lia)) as [E X]. replace (js + (i - js)) with i in E, X by lia.
+        rewrite <- E. apply X; auto. apply mem_In. apply Hcls. rewrite <- E. apply mem_In. apply Fp. apply nth_In. lia.
+Qed.
+
+(* ---------------- C06: allowance zero = CCQR with a prohibitive cost on the region ---------------- *)
+Variable Cbig : Z.
+Hypothesis Cbig_dominates : forall rk c, (key rk c < Cbig)%Z.
+Definition region_cost (c : nat) : Z := if mem c L then Cbig else 0%Z.
+Definition P_out (c : nat) : bool := negb (mem c L).
+Notation Rout j := (run (dv_gqr key (fun _ c => P_out c)) j (init n)).
+Notation Rcc j := (run (dv_ccqr key region_cost) j (init n)).
+
+Lemma ccqr_argmax_eq rk cs : (exists c, In c cs /\ P_out c = true) ->
+  argmax (dv_ccqr key region_cost rk cs) = argmax (dv_gqr key (fun _ c => P_out c) rk cs).
+Proof.
+  intro Hex.
+  assert (Hne : dv_gqr key (fun _ c => P_out c) rk cs <> []).
+  { destruct Hex as [c [Hc _]]. destruct cs; [destruct Hc|discriminate]. }
+  destruct (argmax_spec _ Hne) as (Hlt & Hmax & Hfirst). rewrite dv_gqr_len in Hlt.
+  set (i := argmax (dv_gqr key (fun _ c => P_out c) rk cs)) in *.
+  pose proof (Forall_nth_le _ _ Hmax) as Hmax'. rewrite dv_gqr_len in Hmax'.
+  destruct (pick_permitted key key_pos (fun _ c => P_out c) rk cs Hex) as (_ & Hpi & _).
+  unfold picked in Hpi. fold i in Hpi.
+  assert (Hg : forall j, j < length cs -> nth j (dv_gqr key (fun _ c => P_out c) rk cs) 0%Z =
+                 if P_out (nth j cs 0%nat) then key rk (nth j cs 0%nat) else 0%Z).
+  { intros j Hj. unfold dv_gqr. now rewrite (nth_map' _ cs j 0%Z 0). }
+  assert (Hc : forall j, j < length cs -> nth j (dv_ccqr key region_cost rk cs) 0%Z =
+                 (key rk (nth j cs 0%nat) - region_cost (nth j cs 0%nat))%Z).
+  { intros j Hj. unfold dv_ccqr. now rewrite (nth_map' _ cs j 0%Z 0). }
+  assert (Hval : forall j, j < length cs ->
+            (P_out (nth j cs 0%nat) = true /\ nth j (dv_ccqr key region_cost rk cs) 0%Z = key rk (nth j cs 0%nat)) \/
+            (P_out (nth j cs 0%nat) = false /\ (nth j (dv_ccqr key region_cost rk cs) 0 < 0)%Z)).
+  { intros j Hj. rewrite (Hc j Hj). unfold region_cost, P_out. destruct (mem (nth j cs 0%nat) L); simpl.
+    - right. split; auto. pose proof (Cbig_dominates rk (nth j cs 0%nat)). lia.
+    - left. split; auto. lia. }
+  apply argmax_unique.
+  - unfold dv_ccqr. now rewrite map_length.
+  - unfold dv_ccqr at 1. rewrite map_length. intros k Hk.
+    destruct (Hval i Hlt) as [[_ Ei]|[Z _]]; [|congruence]. rewrite Ei.
+    specialize (Hmax' k Hk). rewrite (Hg k Hk), (Hg i Hlt), Hpi in Hmax'.
+    pose proof (key_pos rk (nth i cs 0%nat)).
+    destruct (Hval k Hk) as [[Pk Ek]|[Pk Ek]]; [rewrite Ek; rewrite Pk in Hmax'; lia|lia].
+  - intros k Hk. assert (Hk' : k < length cs) by lia.
+    destruct (Hval i Hlt) as [[_ Ei]|[Z _]]; [|congruence]. rewrite Ei.
+    specialize (Hfirst k Hk). rewrite (Hg k Hk'), (Hg i Hlt), Hpi in Hfirst.
+    pose proof (key_pos rk (nth i cs 0%nat)).
+    destruct (Hval k Hk') as [[Pk Ek]|[Pk Ek]]; [rewrite Ek; rewrite Pk in Hfirst; lia|lia].
+Qed.
+
+Lemma out_count : N + length L <= n -> N <= length (filter P_out (seq 0 n)).
+Proof. intro H. unfold P_out. rewrite count_non_members. lia. Qed.
+
+Theorem ccqr_prohibitive_is_out_run t : t <= N -> N + length L <= n -> Rcc t = Rout t.
+Proof.
+  intros Ht Hn. induction t as [|t IH]; auto. cbn [run]. rewrite IH by lia.
+  destruct (segment_permitted key key_pos (fun _ c => P_out c) n P_out 0 t) as (picks & E & Lp & Fp & _).
+  { auto. } { pose proof A_len. lia. }
+  { change (snd (Rout 0)) with (seq 0 n). pose proof (out_count Hn). lia. }
+  destruct (run_invariant _ (dv_gqr_len key (fun _ c => P_out c)) n t ltac:(pose proof A_len; lia)) as (Lr & Pm & Rm).
+  pose proof (perm_remaining_count P_out _ _ _ Pm) as Cnt.
+  rewrite Nat.add_0_l in E. change (fst (Rout 0)) with (@nil nat) in E. rewrite app_nil_l in E.
+  rewrite E, (filter_length_all P_out picks Fp), Lp in Cnt. pose proof (out_count Hn).
+  destruct (Rout t) as [rk cs]. cbn [fst snd] in *.
+  assert (Hex : exists c, In c cs /\ P_out c = true).
+  { destruct (filter P_out cs) as [|c r] eqn:Ef; [simpl in Cnt; lia|].
+    assert (Hin : In c (filter P_out cs)) by (rewrite Ef; now left). apply filter_In in Hin. eauto. }
+  unfold step. destruct cs as [|c0 rest]; auto. now rewrite (ccqr_argmax_eq rk (c0 :: rest) Hex).
+Qed.
+
+Theorem s0_max_n_is_out_run : s = 0 -> N + length L <= n -> fst (Rg OMax N) = fst (Rout N).
+Proof.
+  intros Hs Hn.
+  destruct (Nat.le_gt_cases (count_in L (firstn N A)) s) as [Hin|Hact].
+  - (* no region sensor among the unconstrained top-N: both runs are the unconstrained run *)
+    rewrite (inactive_max_n Hin).
+    assert (Eo : Rout N = Rf N).
+    { apply (run_coincides key key_pos (fun _ c => P_out c) n N); [pose proof A_len; lia|].
+      intros j Hj. rewrite <- A_nth by lia. unfold P_out. apply negb_true_iff, mem_false. intro HL.
+      assert (X : count_in L (firstn N A) = 0) by lia.
+      assert (Y : In (nth j A 0) (filter (fun x => mem x L) (firstn N A))).
+      { apply filter_In. split; [|now apply mem_In].
+        rewrite <- (firstn_skipn N A) at 1. rewrite app_nth1 by (rewrite firstn_length, A_len; lia).
+        apply nth_In. rewrite firstn_length, A_len. lia. }
+      unfold count_in in X. destruct (filter (fun x => mem x L) (firstn N A)); [destruct Y|discriminate]. }
+    rewrite Eo. now apply A_prefix.
+  - f_equal. apply run_ext. intros j _. cbv zeta. unfold dv_gqr. apply map_ext. intro c. simpl.
+    unfold permit_max_n. rewrite HN. destruct (Nat.ltb_spec s (count_in L (firstn N A))); [|lia].
+    rewrite Hs. unfold P_out. simpl. f_equal.
+    destruct (mem c (const_idx g)) eqn:E1, (mem c L) eqn:E2; auto.
+    + apply mem_In, const_idx_In, mem_In in E1. congruence.
+    + apply mem_In, const_idx_In, mem_In in E2. congruence.
+Qed.
+
+(* allowance zero: the first N GQR sensors (max_n or exact_n) are the first N CCQR sensors with a prohibitive region
+   cost - same order, ties included *)
+Theorem s0_eq_ccqr : s = 0 -> N + length L <= n ->
+  fst (Rg OMax N) = fst (Rcc N) /\ fst (Rg OExact N) = fst (Rcc N).
+Proof.
+  intros Hs Hn. rewrite (ccqr_prohibitive_is_out_run N (Nat.le_refl N) Hn). split.
+  - now apply s0_max_n_is_out_run.
+  - rewrite (exact_defers_to_max ltac:(lia) N (Nat.le_refl N)). now apply s0_max_n_is_out_run.
 Qed.
 End Region.
